@@ -54,3 +54,35 @@ func VH_C20P() {
 		vAssert(hasD, "C20: accepted although time.ParseDuration rejects and there is no day unit")
 	}
 }
+
+// VH_C20D: the fraction kernel, differentially. The text is <int>.<k digits><unit>
+// with every digit a solver variable; the package's parser and
+// time.ParseDuration are both executed on it and must agree exactly. The
+// fractional part goes through float64 arithmetic in both: the engine encodes
+// it as integer arithmetic where that is provably exact and in the solver's
+// IEEE-754 theory otherwise (a rounding difference of one nanosecond between
+// two ways of writing the same product is a counterexample here).
+func VH_C20D() {
+	units := []string{"h", "m", "s", "ms", "us", "ns"}
+	u := units[vChoose(len(units))]
+	// (the last integer part puts hours next to the int64 overflow boundary: expensive products, thorough tier)
+	ip := []string{"0", "", "1", "2562047"}[vChoose(3+vParam("big", 0))]
+	k := vChoose(vParam("digits", 9)) + 1
+	b := make([]byte, 0, 32)
+	b = append(b, ip...)
+	b = append(b, '.')
+	for i := 0; i < k; i++ {
+		// an arbitrary digit, written so that its range is structural (no solver query to classify it)
+		b = append(b, '0'+vByte()%10)
+	}
+	b = append(b, u...)
+	s := string(b)
+	got, err := ParseDuration(s)
+	want, werr := time.ParseDuration(s)
+	vCover("C20D:parsed")
+	vAssert((err == nil) == (werr == nil), "C20: the same accept/reject decision as time.ParseDuration (fractions)")
+	if werr == nil && err == nil {
+		vCover("C20D:accepted")
+		vAssert(got == want, "C20: same value as time.ParseDuration (fractions)")
+	}
+}
